@@ -78,6 +78,21 @@ Universe ==
                           sh \in {"obj", "arr", "paren", "local", "if", "func", "callarg", "unary", "binary", "index",
                                   "objcomp", "arrcomp", "error", "assert", "field", "fieldplus", "textual"},
                           d \in (IF Big THEN {50, 200, 1000, 5000, 30000, 200000} ELSE {200, 3000, 40000})}
+    [] Uni = "utf8" ->
+         \* every short sequence of structural UTF-8 bytes inside every construct whose body is decoded
+         LET UB == {65, 128, 143, 144, 159, 160, 191, 192, 193, 194, 223, 224, 237, 239, 240, 244, 245, 255}
+             Bodies == Seqs(UB, 3) \cup {<<a, b, d, e>> : a \in {240, 244}, b \in {128, 143, 144, 191}, d \in {128, 191, 65}, e \in {128, 191}}
+                       \cup (IF Big THEN [1..4 -> UB] ELSE {})
+             Wrap == { <<<<34>>, <<34>>>>, <<<<39>>, <<39>>>>, <<<<64, 34>>, <<34>>>>, <<<<124, 124, 124, 10, 32>>, <<10, 124, 124, 124>>>>,
+                       <<<<49, 47, 47>>, <<>>>>, <<<<49, 47, 42>>, <<42, 47>>>>, <<<<49, 35>>, <<>>>>, <<<<>>, <<>>>> } IN
+         {[kind |-> "bytes", bytes |-> w[1] \o b \o w[2]] : w \in Wrap, b \in Bodies}
+    [] Uni = "fmt" ->
+         {[kind |-> "std", fn |-> "format",
+           args |-> <<"\"%" \o fl \o wd \o pr \o cv \o "\"", v>>] :
+            fl \in {"", "-", "0", "+", " ", "#"}, wd \in {"", "5", "*"}, pr \in {"", ".", ".0", ".3", ".*"},
+            cv \in {"d", "i", "u", "o", "x", "X", "e", "E", "f", "F", "g", "G", "c", "s", "%"},
+            v \in {"0", "1", "-1", "0.5", "1e10", "1e-5", "1.7976931348623157e308", "\"a\"", "[1, 2, 3]", "[5, 2, 7]",
+                   "null", "{a: 1}"}}
     [] Uni = "std0" -> {[kind |-> "std", fn |-> f, args |-> <<>>] : f \in DOMAIN StdTable}
     [] Uni = "std1" -> {[kind |-> "std", fn |-> f, args |-> <<a>>] : f \in Fns(1), a \in U1}
     [] Uni = "std2" -> {[kind |-> "std", fn |-> f, args |-> <<a, b>>] : f \in Fns(2), a \in U2, b \in U2}
